@@ -140,7 +140,7 @@ func (x *c15World) battery() map[string]vt.StatusTriple {
 }
 
 var c15Steps = []string{
-	"ok-call", "closed-call", "closed-push", "unknown-route", "bad-body", "panic", "badtype", "presend-outside", "dial-fail", "dial-timeout", "dial-hook-refuses", "cut-mid-call",
+	"ok-call", "closed-call", "closed-push", "unknown-route", "bad-body", "panic", "badtype", "presend-outside", "user-status-404", "user-status-400", "user-status-102", "user-status-500", "dial-fail", "dial-timeout", "dial-hook-refuses", "cut-mid-call",
 	"truncated-reply-mid-call", "garbage-reply-mid-call", "session-age-expires-mid-call",
 	"reply-404-write-times-out", "reply-400-write-times-out", "reply-500-write-times-out",
 	"redial-fails-then-traffic", "redial-fails-then-traffic",
@@ -185,6 +185,12 @@ func (x *c15World) step(name string) {
 			ps.PreSend(erpc.TypePush, "/late", nil, nil)
 			ps.PreCall("/late", nil, nil)
 		}
+	case "user-status-404", "user-status-400", "user-status-102", "user-status-500":
+		// a handler answers with a status it built from a framework code (NewStatusByCodeText)
+		// and then completed with its own cause and message
+		var code int32
+		fmt.Sscanf(strings.TrimPrefix(name, "user-status-"), "%d", &code)
+		x.link(x.cli, x.srv).A.Call(x.route, &LibArg{Rid: "u", Act: "err-bycodetext", Code: code, Msg: "custom message", Val: "v"}, new(LibRes))
 	case "dial-fail":
 		x.cli.Dial("127.0.0.1:1")
 	case "dial-timeout":
@@ -355,7 +361,7 @@ func (x *c15World) step(name string) {
 	}
 }
 
-const ruleC15 = "history = 1-12 steps drawn from {successful call, call/push on a closed session, unknown route, undecodable body, handler panic, frame of unsupported type, PreSend/PreCall outside the accept phase, refused dial, dial that runs into a 1 ns DialTimeout, established connection refused by a PostDial hook with a timeout-flavoured cause, connection cut while a call waits, connection ending with a non-EOF read error while a call waits (truncated reply, over-limit garbage, session-age read deadline), error replies (404 / 400 / 500) that cannot be written because the reply context expired, calls and pushes on a redial-enabled session whose server is gone for good (during the redial and after it gave up), proxied call and proxied push with the backend session closed, proxied call whose backend connection is cut mid-call, proxied call that succeeds, auth rejection, secure plugin with a wrong key, overloader rejection}; oracle (a): code/msg/cause of every predefined status (verif accessor) is identical before the history and after every step; oracle (b): a fixed battery of failing operations on fresh sessions yields identical triples before and after the history; non-trivial = the history contains a step that hands a predefined status by pointer to plugin or user code (proxy with backend down, closed-session call/push); distinct by history"
+const ruleC15 = "history = 1-12 steps drawn from {successful call, call/push on a closed session, unknown route, undecodable body, handler panic, frame of unsupported type, PreSend/PreCall outside the accept phase, a handler answering with a status built by NewStatusByCodeText(404/400/102/500) and completed in place with its own cause and message, refused dial, dial that runs into a 1 ns DialTimeout, established connection refused by a PostDial hook with a timeout-flavoured cause, connection cut while a call waits, connection ending with a non-EOF read error while a call waits (truncated reply, over-limit garbage, session-age read deadline), error replies (404 / 400 / 500) that cannot be written because the reply context expired, calls and pushes on a redial-enabled session whose server is gone for good (during the redial and after it gave up), proxied call and proxied push with the backend session closed, proxied call whose backend connection is cut mid-call, proxied call that succeeds, auth rejection, secure plugin with a wrong key, overloader rejection}; oracle (a): code/msg/cause of every predefined status (verif accessor) is identical before the history and after every step; oracle (b): a fixed battery of failing operations on fresh sessions yields identical triples before and after the history; non-trivial = the history contains a step that hands a predefined status by pointer to plugin or user code (proxy with backend down, closed-session call/push); distinct by history"
 
 func TestC15StatusImmutable(t *testing.T) {
 	rec := vt.NewRec(t, "C15", "immutable", ruleC15)
